@@ -93,11 +93,13 @@ type Op struct {
 	API     string   `json:"api,omitempty"`
 	Host    int      `json:"host"`
 	Sni     string   `json:"sni,omitempty"`
-	TLS12   bool     `json:"tls12,omitempty"` // hs: client caps the version at TLS 1.2
-	Std     bool     `json:"std,omitempty"`   // hs: the client itself verifies (RootCAs + ServerName), as a browser would
-	Held    bool     `json:"held,omitempty"`  // get/hs: use the tls.Config kept by an earlier prep of the same API/Host
-	Count   int      `json:"count,omitempty"` // sweep: number of distinct names
-	Tag     int      `json:"tag,omitempty"`   // sweep: names are h<k>.sweep<Tag>.test, so two sweeps with one Tag share them
+	TLS12   bool     `json:"tls12,omitempty"`     // hs: client caps the version at TLS 1.2
+	TCP     bool     `json:"tcp,omitempty"`       // hs: real loopback TCP sockets (a listener's connection) instead of net.Pipe
+	Before  int      `json:"before_ms,omitempty"` // expire: stop this many ms BEFORE the last NotAfter instead of after it
+	Std     bool     `json:"std,omitempty"`       // hs: the client itself verifies (RootCAs + ServerName), as a browser would
+	Held    bool     `json:"held,omitempty"`      // get/hs: use the tls.Config kept by an earlier prep of the same API/Host
+	Count   int      `json:"count,omitempty"`     // sweep: number of distinct names
+	Tag     int      `json:"tag,omitempty"`       // sweep: names are h<k>.sweep<Tag>.test, so two sweeps with one Tag share them
 	Workers []Worker `json:"workers,omitempty"`
 }
 
@@ -450,6 +452,11 @@ func (x *exec) checkChain(where string, e expectation, chain [][]byte, t0, t1 ti
 			where, leaf.Subject.CommonName, leaf.DNSNames, leaf.IPAddresses, leaf.NotBefore.Format(time.RFC3339), leaf.NotAfter.Format(time.RFC3339),
 			e.name, tv.Format(time.RFC3339Nano), t0.Format(time.RFC3339Nano), t1.Format(time.RFC3339Nano), err)
 	}
+	if err == nil && leaf.NotAfter.Before(t1) {
+		// tolerated by the oracle above (valid when the request began); see the
+		// report, round 6, for why the statement is read that way
+		kit.Note(x.check, "some requests were served a leaf that expired before the request/handshake had ended (it was valid when it began)")
+	}
 	if len(leaf.Subject.Organization) != 1 || leaf.Subject.Organization[0] != x.c.Org {
 		x.fail("C06/organization/"+e.shape+"/wrong-organization", "%s: leaf organization %q, configured %q", where, leaf.Subject.Organization, x.c.Org)
 	}
@@ -612,8 +619,49 @@ func isTimeout(err error) bool {
 
 // handshakeOnce runs a real TLS handshake over an in-memory pipe, followed by
 // one application byte from server to client. Both ends carry a deadline.
-func handshakeOnce(scfg, ccfg *tls.Config, bound time.Duration) hsOut {
+// tcpPair is a connected pair of real TCP sockets on the loopback (what a
+// listener hands to tls.Server: the connection has addresses, unlike a pipe).
+func tcpPair(bound time.Duration) (client, server net.Conn, err error) {
+	l, err := netkit.Listen()
+	if err != nil {
+		return nil, nil, err
+	}
+	defer l.Close()
+	type acc struct {
+		c   net.Conn
+		err error
+	}
+	ch := make(chan acc, 1)
+	go func() {
+		c, err := l.Accept()
+		ch <- acc{c, err}
+	}()
+	client, err = net.DialTimeout("tcp", l.Addr().String(), bound)
+	if err != nil {
+		return nil, nil, err
+	}
+	select {
+	case a := <-ch:
+		if a.err != nil {
+			client.Close()
+			return nil, nil, a.err
+		}
+		return client, a.c, nil
+	case <-time.After(bound):
+		client.Close()
+		return nil, nil, errors.New("accept did not return")
+	}
+}
+
+func handshakeOnce(scfg, ccfg *tls.Config, bound time.Duration, tcp bool) hsOut {
 	cp, sp := net.Pipe()
+	if tcp {
+		c, s, err := tcpPair(bound)
+		if err != nil {
+			return hsOut{cerr: fmt.Errorf("harness: no loopback connection: %w", err), serr: err, timeout: true}
+		}
+		cp, sp = c, s
+	}
 	dl := time.Now().Add(bound)
 	cp.SetDeadline(dl)
 	sp.SetDeadline(dl)
@@ -679,8 +727,16 @@ func (x *exec) clientConfig(e expectation, sni string, tls12, std bool) *tls.Con
 
 // hs performs one real handshake and applies the oracle.
 func (x *exec) hs(where string, api string, host int, sni string, tls12, std, held bool) {
+	x.hsOver(where, api, host, sni, tls12, std, held, false)
+}
+
+// hsOver: tcp selects real loopback sockets instead of the in-memory pipe.
+func (x *exec) hsOver(where string, api string, host int, sni string, tls12, std, held, tcp bool) {
 	e := expect(x.c.Hosts, api, host, sni)
 	where = where + " handshake against " + describeReq(x.c.Hosts, api, host, sni)
+	if tcp {
+		where += " over TCP loopback"
+	}
 	if held && x.held[heldKey(api, host)] != nil {
 		where += " (tls.Config built at an earlier step)"
 		if !e.refuse {
@@ -694,7 +750,7 @@ func (x *exec) hs(where string, api string, host int, sni string, tls12, std, he
 		std = false
 	}
 	run := func(bound time.Duration) hsOut {
-		return handshakeOnce(x.serverConfig(api, host, held), x.clientConfig(e, sni, tls12, std), bound)
+		return handshakeOnce(x.serverConfig(api, host, held), x.clientConfig(e, sni, tls12, std), bound, tcp)
 	}
 	out := run(kit.T())
 	if out.timeout {
@@ -763,7 +819,7 @@ func (x *exec) step(i int, op Op) {
 	case "get":
 		x.get(where, op.API, op.Host, op.Sni, op.Held)
 	case "hs":
-		x.hs(where, op.API, op.Host, op.Sni, op.TLS12, op.Std, op.Held)
+		x.hsOver(where, op.API, op.Host, op.Sni, op.TLS12, op.Std, op.Held, op.TCP)
 	case "prep":
 		x.held[heldKey(op.API, op.Host)] = x.serverConfig(op.API, op.Host, false)
 		x.lastPrep = time.Now()
@@ -783,8 +839,14 @@ func (x *exec) step(i int, op Op) {
 		if until.IsZero() {
 			return
 		}
+		target := until.Add(30 * time.Millisecond)
+		if op.Before > 0 {
+			// the leaves are about to expire, not expired: whatever is served
+			// now has about Before ms left
+			target = until.Add(-time.Duration(op.Before) * time.Millisecond)
+		}
 		// NotAfter has whole-second precision and is inclusive.
-		if d := time.Until(until.Add(30 * time.Millisecond)); d > 0 {
+		if d := time.Until(target); d > 0 {
 			if d > 2*x.c.validity() {
 				d = 2 * x.c.validity()
 			}
@@ -1081,6 +1143,7 @@ func run(check string, c Case) kit.Verdict {
 
 type caseInfo struct {
 	ip, v6bare, v6port, port, mixed, hit, crossing, conc, handshake, tls12, noName, sni, sniDiffers, std, apiTLS bool
+	nearExpiry, tcp                                                                                              bool
 	v6bracketed                                                                                                  bool
 	odd, afterOdd, long                                                                                          bool
 	held, heldCrossing, tunnel, idleTunnel                                                                       bool
@@ -1164,7 +1227,14 @@ func analyse(c Case) caseInfo {
 			if op.Kind == "hs" && op.Std {
 				ci.std = true
 			}
+			if op.Kind == "hs" && op.TCP {
+				ci.tcp = true
+			}
 		case "expire":
+			if op.Before > 0 {
+				ci.nearExpiry = c.short() && len(requested) > 0
+				continue
+			}
 			for k := range requested {
 				stale[k] = true
 			}
@@ -1222,7 +1292,7 @@ func classes(c Case) []string {
 		{ci.ip, "ip-literal"}, {ci.v6bare, "ipv6-bare"}, {ci.v6port, "ipv6-bracket-port"}, {ci.v6bracketed, "ipv6-bracketed-no-port"}, {ci.port, "host-port"},
 		{ci.mixed, "mixed-case"}, {ci.hit, "cache-hit"}, {ci.crossing, "expiry-crossing"}, {ci.conc, "concurrent"},
 		{ci.handshake, "handshake"}, {ci.tls12, "tls12"}, {ci.noName, "no-name"}, {ci.sni, "sni"},
-		{ci.sniDiffers, "sni-differs-from-fallback"}, {ci.std, "std-client"}, {ci.apiTLS, "api-tls"}, {c.short(), "short-validity"}, {c.validity() > 24*time.Hour, "validity-over-a-day"}, {c.validity() > (1 << 62), "validity-over-146-years"}, {ci.odd, "unissuable-name"}, {ci.afterOdd, "request-after-unissuable-name"}, {ci.long, "long-history-160-plus-names"}, {ci.held, "held-config"}, {ci.heldCrossing, "held-config-across-expiry"}, {ci.tunnel, "proxy-tunnel"}, {ci.idleTunnel, "idle-tunnel-past-validity"}, {c.CA == "ecdsa", "ecdsa-authority"}, {c.H2 != "", "h2-configured"},
+		{ci.sniDiffers, "sni-differs-from-fallback"}, {ci.std, "std-client"}, {ci.apiTLS, "api-tls"}, {c.short(), "short-validity"}, {c.validity() > 24*time.Hour, "validity-over-a-day"}, {c.validity() > (1 << 62), "validity-over-146-years"}, {ci.nearExpiry, "request-just-before-expiry"}, {ci.tcp, "handshake-over-tcp"}, {ci.odd, "unissuable-name"}, {ci.afterOdd, "request-after-unissuable-name"}, {ci.long, "long-history-160-plus-names"}, {ci.held, "held-config"}, {ci.heldCrossing, "held-config-across-expiry"}, {ci.tunnel, "proxy-tunnel"}, {ci.idleTunnel, "idle-tunnel-past-validity"}, {c.CA == "ecdsa", "ecdsa-authority"}, {c.H2 != "", "h2-configured"},
 	} {
 		if kv.on {
 			out = append(out, kv.name)
